@@ -20,7 +20,7 @@ def build():
     for attempt in range(4):
         parts, rels = gen_relations.sources(g, exclude=set(excluded))
         srcs = [C.gen_file(n, t) for n, t in parts]
-        r = C.compile_cxx('relations', srcs, flags=['-std=c++17', '-O1', '-fno-fast-math', '-ffp-contract=off', '-w'],
+        r = C.compile_cxx('relations', srcs, flags=['-std=c++17', '-O1', '-fno-fast-math', '-ffp-contract=off', '-w'], libs=['-lquadmath'],
                           timeout=3400, allow_fail=True)
         if isinstance(r, str):
             json.dump(excluded, open(blk, 'w'))
